@@ -294,7 +294,11 @@ def callbacks_body(ex, errors):
     o.on_trait_change(lambda new: log["p"].append(new), "cached")
     o.on_trait_change(lambda new: log["proto"].append(new), "x")
     o.on_trait_change(lambda new: log["p"].append(("legacy", new)), "legacy")
-    scenario = ex.choice("scenario", 8)
+    scenario = ex.choice("scenario", 10)
+    if scenario == 8:
+        return adapter_scenario(ex, E)
+    if scenario == 9:
+        return default_handler_scenario(ex)
     if scenario == 0:          # custom validator fails
         o.v = 3
         Flaky.fail = E
@@ -381,6 +385,116 @@ def callbacks_body(ex, errors):
         o.parent.x = 8
         ex.check(o.x == 8 and log["proto"] == [8], "after the failed assignment the link is intact: prototype changes still notify")
     return {"scenario": scenario}
+
+
+def adapter_scenario(ex, E):
+    """an adapter factory raises while a value is being assigned: to an adapting trait on its own, inside a compound trait
+    followed by alternatives that would accept the raw value, and inside a container"""
+    from traits.api import Supports, Either, Union
+    from traits.adaptation.api import (AdaptationManager, get_global_adaptation_manager, set_global_adaptation_manager)
+    old_mgr = get_global_adaptation_manager()
+    mgr = AdaptationManager()
+    set_global_adaptation_manager(mgr)
+    try:
+        st = {"fail": False}
+
+        class Target(HasTraits):
+            pass
+
+        class Doc(HasTraits):
+            pass
+
+        class Ad(Target):
+            adaptee = Any()
+
+        def factory(a):
+            if st["fail"]:
+                st["fail"] = False
+                raise E("injected")
+            return Ad(adaptee=a)
+
+        mgr.register_factory(factory, Doc, Target)
+        shape = ex.choice("adapting_trait", 4)
+        if shape == 2 and E is TraitError:
+            # by design a TraitError out of a Union member's validate IS that member's rejection (the next member is tried);
+            # only other exception classes say 'the callback failed'
+            return {"scenario": 8, "shape": shape, "skipped": True}
+
+        class Owner(HasTraits):
+            t = [Supports(Target), Either(Instance(Target, adapt="yes"), Instance(Doc), Int),
+                 Union(Instance(Target, adapt="yes"), Instance(Doc)), Either(None, Instance(Target, adapt="yes"), Any)][shape]
+
+        o = Owner()
+        seen = []
+        o.on_trait_change(lambda new: seen.append(new), "t")
+        first = Doc()
+        o.t = first
+        ex.check(isinstance(o.t, Ad) and o.t.adaptee is first, "a value that needs an adapter is stored adapted")
+        before, n0 = o.t, len(seen)
+        st["fail"] = True
+        exc = None
+        try:
+            o.t = Doc()
+        except Exception as e:
+            exc = type(e)
+        ex.check(exc in (E, TraitError), "a failing adapter factory's exception reaches the caller unchanged or as TraitError")
+        ex.check(o.t is before and len(seen) == n0, "a failing adapter factory leaves the value and the handlers untouched")
+        nxt = Doc()
+        o.t = nxt
+        ex.check(isinstance(o.t, Ad) and o.t.adaptee is nxt and len(seen) == n0 + 1, "afterwards assignment adapts as if nothing had happened")
+        return {"scenario": 8, "shape": shape}
+    finally:
+        set_global_adaptation_manager(old_mgr)
+
+
+def default_handler_scenario(ex):
+    """a change handler raises and the DEFAULT exception handler (which logs the failure) is in charge: whatever the exception
+    looks like, the assignment stands, the other handlers run, nothing reaches the caller"""
+    import logging
+    pop_exception_handler()                 # the collecting handler callbacks_harness pushed: back to the library default
+    logger = logging.getLogger("traits")
+    null = logging.NullHandler()
+    logger.addHandler(null)
+    old_prop, logger.propagate = logger.propagate, False
+    try:
+        excs = [RuntimeError(7), RuntimeError(), NotImplementedError(object), RuntimeError("maximum recursion depth exceeded (not really)"),
+                ValueError(("a", "tuple")), KeyError(None), TraitError("plain")]
+        exc_obj = excs[ex.choice("raised", len(excs))]
+        calls = {"bad": 0, "good": []}
+
+        class O(HasTraits):
+            v = Int(0)
+            l = List(Int)
+
+        o = O()
+
+        def bad(new):
+            calls["bad"] += 1
+            raise exc_obj
+
+        o.on_trait_change(bad, "v")
+        o.on_trait_change(lambda new: calls["good"].append(new), "v")
+        o.on_trait_change(bad, "l_items")
+        o.on_trait_change(lambda new: calls["good"].append("items"), "l_items")
+        escaped = None
+        try:
+            o.v = 3
+        except BaseException as e:
+            escaped = type(e).__name__
+        ex.check(escaped is None, "a failing change handler's exception does not reach the caller of the assignment")
+        ex.check(o.v == 3 and calls["good"] == [3] and calls["bad"] == 1, "the assignment is complete and the other handlers still run")
+        escaped = None
+        try:
+            o.l.append(1)
+        except BaseException as e:
+            escaped = type(e).__name__
+        ex.check(escaped is None and o.l == [1] and calls["good"] == [3, "items"],
+                 "a failing items handler neither undoes the mutation nor starves the other handlers nor raises to the caller")
+        return {"scenario": 9}
+    finally:
+        logger.removeHandler(null)
+        logger.propagate = old_prop
+        push_exception_handler(lambda *a: None, reraise_exceptions=False)      # callbacks_harness pops one on the way out
 
 
 def obligations(tier, build):
